@@ -35,6 +35,8 @@ func TestC10(t *testing.T) {
 		{"realloc-engine-fails", []Op{{Kind: "create", Pod: 0, Count: 1, CPU: 50, Mem: 100}, {Kind: "realloc", CPU: 50, Mem: 100}}, 1, FaultSpec{Method: "VirtualizationUpdateResource", Target: "*", Ord: 0}, false},
 		{"realloc-plugin-write-fails", []Op{{Kind: "create", Pod: 0, Count: 1, CPU: 50, Mem: 100}, {Kind: "realloc", CPU: 50, Mem: 100}}, 1, FaultSpec{Method: "Plugin.SetNodeResourceUsage", Target: "*", Ord: 0}, false},
 		{"create-plugin-write-fails", []Op{{Kind: "create", Pod: 0, Count: 2, CPU: 50, Mem: 100}}, 0, FaultSpec{Method: "Plugin.SetNodeResourceUsage", Target: "*", Ord: 0}, false},
+		{"dissociate-usage-decr-fails", []Op{{Kind: "create", Pod: 0, Count: 2, CPU: 100, Mem: 100}, {Kind: "dissociate"}}, 1, FaultSpec{Method: "SetNodeResourceUsage", Target: "*", Ord: 0}, true},
+		{"setnode-meta-late-info-fails", []Op{{Kind: "create", Pod: 0, Count: 1, CPU: 100, Mem: 100}, {Kind: "setnode", Node: 0, Bypass: 1, Label: 3, SetMem: true, Delta: true, Mem: 500}}, 1, FaultSpec{Method: "GetNodeResourceInfo", Target: "*", Ord: 1}, true},
 		{"remove-engine-fails", []Op{{Kind: "create", Pod: 0, Count: 2, CPU: 50, Mem: 100}, {Kind: "remove", Force: true}}, 1, FaultSpec{Method: "VirtualizationRemove", Target: "*", Ord: 0}, false},
 		{"removenode-plugin-fails", []Op{{Kind: "removenode", Node: 2}}, 0, FaultSpec{Method: "RemoveNode", Target: "n2", Ord: 1}, false},
 		{"setnode-update-fails", []Op{{Kind: "setnode", Node: 1, SetMem: true, Delta: true, Mem: 500}}, 0, FaultSpec{Method: "UpdateNodes", Target: "*", Ord: 0}, false},
@@ -97,7 +99,8 @@ func TestC10(t *testing.T) {
 				continue
 			}
 			// quick: every fault address of a 3-instance cpu-bound deployment on one node; thorough: of every corpus scenario
-			if r.Tier != "thorough" && c.name != "bound-start-2nd-fails" {
+			// ... and of a dissociation and of a set-node that changes node metadata and capacity (small world)
+			if r.Tier != "thorough" && c.name != "bound-start-2nd-fails" && c.name != "dissociate-usage-decr-fails" && c.name != "setnode-meta-late-info-fails" {
 				continue
 			}
 			// fault-free run to learn the calls of the operation
